@@ -4,13 +4,13 @@ import json, os
 HERE = os.path.dirname(os.path.abspath(__file__))
 
 CLAIMED = {
-    'C01': ('enc', 'TLC model checking of the encode/decode round trip over the complete immediate range of every format (EncModel) + TLC trace validation (EncTrace, RV32Dec) of ~1.5M words recorded from the real encoders and text front end',
+    'C01': ('enc', 'TLC model checking of the encode/decode round trip over the complete immediate range of every format (EncModel) + TLC trace validation (EncTrace, RV32Dec) of ~1.5M words recorded from the real encoders and text front end Also: all encoders interleaved in one interpreter in two opposite orders; trailing immediates written as expressions in the text rows.',
             '§4 C01', 'TLC; RV32Dec.tla as the reading of the ISA manual; the harness only renders operands and records results'),
     'C02': ('enc', 'TLC over all 65,536 halfwords (RvcSpace: classification, one-to-one with the accepted tuples), canonical text of all 28,461 legal halfwords replayed into the real assembler, TLC trace validation of every accepted c.* tuple around the legal sets',
             '§4 C02', 'TLC; RVCDec.tla as the reading of the RVC chapter'),
-    'C06': ('enc', 'TLC trace validation of ~1.3M accept/refuse outcomes of all 93 encoders and of one-line programs against the contract AsmEncode!Accepts (both sides of every interval bound, every residue, registers -1..33)',
+    'C06': ('enc', 'TLC trace validation of ~1.3M accept/refuse outcomes of all 93 encoders and of one-line programs against the contract AsmEncode!Accepts (both sides of every interval bound, every residue, registers -1..33) Also: all encoders interleaved in one interpreter (history independence of the verdict), and whole programs in which a pseudo-branch / j / jal must be accepted exactly where its documented base instruction is (class pbranch).',
             '§4 C06', 'TLC; AsmEncode.tla as the reading of the ISA operand sets'),
-    'C07': ('enc', 'TLC exhaustive check of the %hi/%lo theorem on limbs (all 4096 low parts x upper classes; thorough: all 2^20 upper parts) + TLC trace validation of relocate_hi/lo and of decoded lui/auipc+addi/lw/sw/jalr pairs emitted for literals, constants, labels and %position, compression off and on',
+    'C07': ('enc', 'TLC exhaustive check of the %hi/%lo theorem on limbs (all 4096 low parts x upper classes; thorough: all 2^20 upper parts) + TLC trace validation of relocate_hi/lo and of decoded lui/auipc+addi/lw/sw/jalr pairs emitted for literals, constants, labels and %position, compression off and on Also: the identity for every spelling in [-2^32, 2^32) discharged symbolically by Apalache (HiLoApa) with a refuted mutant; pairs the assembler writes itself (call / tail / li %offset to a constant).',
             '§4 C07', 'TLC; HiLoOps.tla; RV32Dec/RVCDec'),
     'C03': ('layout', 'TLC enumerates every well-formed program of <= N items over alphabets of labels, (in)compressible instructions, branches, jal, j/call/tail, li, aligns, data and one gap per distance class (real constants: +-254/256, +-2046/2048, +-4094/4096, +-1 MiB, beyond); each is assembled by the real assembler in both modes with per-line byte recording and TLC (AsmRef) recomputes label offsets from the emitted sizes, decodes every control transfer and checks it lands on its label and that the reported label table is exact',
             '§4 C03', 'TLC; AsmRef/RV32Dec/RVCDec; the harness renders one item per line and groups emitted Blobs by line'),
@@ -18,7 +18,7 @@ CLAIMED = {
             '§4 C04', 'TLC; AsmRef (SemNorm: add rd,x0,rs == addi rd,rs,0 is the only semantic identification)'),
     'C08': ('layout', 'TLC-enumerated programs over an alphabet of label-valued operands (%offset, %position, bare labels, %hi/%lo of %position, li with label values, dw / pack data words) placed before/after labels across aligns, compressible code and shrinking pseudo-instructions; TLC evaluates each expression on the final layout recomputed from emitted sizes and compares with the decoded immediate / data word',
             '§4 C08', 'TLC; AsmRef!ExprVal; HiLoOps'),
-    'C09': ('layout', 'TLC-enumerated item sequences with align N (N in 1,2,3,4,5,7,8,9,16) at every residue (1/2/3-byte data), several aligns in a row, both modes: in-order concatenation, instruction sizes 2/4, data sizes, minimal all-zero padding judged by TLC from the recorded per-line chunks',
+    'C09': ('layout', 'TLC-enumerated item sequences with align N (N in 1,2,3,4,5,7,8,9,16) at every residue (1/2/3-byte data), several aligns in a row, both modes: in-order concatenation, instruction sizes 2/4, data sizes, minimal all-zero padding judged by TLC from the recorded per-line chunks Also: the padding formula proved for every position and alignment by Apalache (AlignApa) with a refuted mutant; data directives of every kind as source text (datamix).',
             '§4 C09', 'TLC; AsmRef'),
     'C12': ('layout', 'every enumerated program (control, values, far, literal-boundary spaces) is assembled in both modes; TLC reports CompressKeepsSuccess whenever the run without -c succeeded and the run with -c did not',
             '§4 C12', 'TLC; LayoutTrace!Rel'),
@@ -32,17 +32,17 @@ CLAIMED = {
             '§4 C11', 'TLC; AsmExpr.tla; the harness compares two observed outputs for substitution'),
     'C13': ('front', 'TLC enumerates every documented rewrite (choice vector) of every line of 6 base programs (LexSpace, ~37k variants; all registers in all spellings) and checks the lexical theorem Norm(Lex(Render)) = line on each; each variant text replaces the canonical line (random blank/comment fillers) and the real assembler must produce the same bytes and labels; plus programs with all lines rewritten at once',
             '§4 C13', 'TLC; AsmLex.tla; relational comparison of two observed outputs'),
-    'C14': ('front', 'TLC enumerates 15,120 include scenarios (depth, position, location of every included file, decoys, 5 working directories, absolute/relative main path) and AsmInclude!Flatten gives the acceptable flattenings with provenance; the real read_lines provenance, and bytes/labels/constants of the tree vs. the spliced program, are compared; CLI subprocess sample',
+    'C14': ('front', 'TLC enumerates 15,120 include scenarios (depth, position, location of every included file, decoys, 5 working directories, absolute/relative main path) and AsmInclude!Flatten gives the acceptable flattenings with provenance; the real read_lines provenance, and bytes/labels/constants of the tree vs. the spliced program, are compared; CLI subprocess sample Also: includes no searched directory satisfies (must be refused) and included / main files that are symbolic links.',
             '§4 C14', 'TLC; AsmInclude.tla'),
     'C15': ('front', 'TLC enumerates 51 faulty lines in 10 classes x 6 positions x include depth 0..2 (FaultSpace) and derives with Flatten the provenance the error must carry; each tree assembled via API (path and source string) in both modes and via CLI; exception type, file and line compared',
             '§4 C15', 'TLC; AsmInclude!Flatten'),
-    'C16': ('session', 'TLC enumerates every call history of <= 3 (4) calls over a pool of 12 interfering programs x compress x dictionary mode (AsmSession: tables never change, results are a function of the call\'s inputs); each history is replayed in one interpreter and every call compared with the same call alone in a fresh interpreter; module tables digested after each call; CLI under 5 PYTHONHASHSEED values',
+    'C16': ('session', 'TLC enumerates every call history of <= 3 (4) calls over a pool of 12 interfering programs x compress x dictionary mode (AsmSession: tables never change, results are a function of the call\'s inputs); each history is replayed in one interpreter and every call compared with the same call alone in a fresh interpreter; module tables digested after each call; CLI under 5 PYTHONHASHSEED values Also: file-tree programs (the same file name in several searched directories, one shared include_dirs list object, a tree called without and with the directory a nested include needs), 17 hash seeds.',
             '§4 C16', 'TLC enumerates; the baseline oracle is the implementation in a fresh interpreter (purity is relational)'),
     'C17': ('cli', 'TLC explores the CLI model AsmCli (one action per check / write, file states absent/old/new) over all 1,728 scenarios (options x pre-existing files x trouble incl. assembler failure in each pass and unusable hex offsets) with invariants SuccessFilesExact / FailureLeavesFilesUntouched; every scenario is replayed into the real cli_main() (in-process with write-order recording, subprocess sample); Intel HEX files are decoded by TLC (IntelHex.tla)',
             '§4 C17', 'TLC; AsmCli.tla, IntelHex.tla'),
     'C18': ('dfu', 'TLC exhaustive model checking of the host (shaped like dfu.cli_main) composed with a DfuSe device over all lengths, busy/poll-delay schedules, start states and failing operations within small constants (+ liveness under fairness, + named deviations that each invariant must catch); every exported TLC behaviour replayed into the real dfu.cli_main(); TLC trace validation (DfuTrace) of ~2000 recorded real runs (4 flash variants, boundary/swept lengths, random timing) in which TLC recomputes the flash from the requests',
             '§4 C18', 'TLC; DfuDevice.tla as the reading of DFU 1.1/DfuSe; fake usb module + patched time.sleep record faithfully'),
-    'C19': ('dfu', 'same model and trace validation as C18 with every oversize class and every single / double device-error injection at every erase / write step; clauses OversizeRefusedBeforeAnyDnload and ErrorNeverAnnouncedDone judged by TLC on every recorded run',
+    'C19': ('dfu', 'same model and trace validation as C18 with every oversize class and every single / double device-error injection at every erase / write step; clauses OversizeRefusedBeforeAnyDnload and ErrorNeverAnnouncedDone judged by TLC on every recorded run Also: the page arithmetic proved for every length / page size / page count by Apalache (DfuPadApa); images ending in 0xff / zeros / whitespace, images fed through a named pipe.',
             '§4 C19', 'TLC; DfuDevice.tla; the harness decides whether the failure output names the status (string search for the DFU status description / number)'),
 }
 
